@@ -7,6 +7,7 @@ usage: bin/gen_meta.py <round> <needs.json>
 import json, os, sys
 
 SOURCES = {
+    11: "fresh sub-agent given only the property text, one-line summaries of the twelve earlier changes against the same property, the instruction to think of failing callbacks, the order of two effects, clean-up, state surviving between calls or objects, Clone, conversions, special values, index arithmetic, interleavings, I/O faults and boundaries, a 20-25 minute limit, and its own scratch worktree of /repo (nothing from /verif)",
     10: "fresh sub-agent given only the property text, one-line summaries of the ten earlier changes against the same property, the instruction to think of failing callbacks, the order of two effects, clean-up, state surviving between calls or objects, Clone, conversions, special values, index arithmetic and boundaries, and its own scratch worktree of /repo (nothing from /verif)",
     9: "fresh sub-agent given only the property text, one-line summaries of the ten earlier changes against the same property, the instruction to think of error handling, clean-up, the order of two effects, protocol counters, check-then-act gaps, time / channel APIs, panicking callbacks, clones, conversions and special values, and its own scratch worktree of /repo (nothing from /verif)",
     8: "fresh sub-agent given only the property text, one-line summaries of the eight earlier changes against the same property, the instruction to think of failing user callbacks, the order of two effects, clean-up, state surviving between calls or objects, clones, scalar-type / backend conversions, special values and boundaries, and its own scratch worktree of /repo (nothing from /verif)",
